@@ -124,14 +124,15 @@ Proof.
 Qed.
 Print Assumptions C08_list_without_comment_is_one_line.
 
-(* The hereditary statement for a sub-language (Unbreak.rs): every kind of code except code blocks, content blocks and
-   the markup and math constructs - tokens, named/keyed pairs, spreads, unary and binary operations, field accesses,
-   calls with their argument lists (not `table`/`grid`), closures, let bindings, destructuring assignments, set and show
-   rules, context/if/while/for/return/include, arrays, dictionaries, destructuring patterns, parameter lists,
-   parenthesized expressions, imports with their items - provided no node is written on several source lines and none
-   is a comment or a paragraph break.  Where breaks are suppressed every request the converters make on such a tree
-   yields an unbreakable document, so it is printed on one line at every width.  Partial: markup and math constructs,
-   code and content blocks, raw elements and table calls are outside `rs`. *)
+(* The hereditary statement for a sub-language (Unbreak.rs): all code and the markup bodies that nest it - tokens,
+   named/keyed pairs, spreads, unary and binary operations, field accesses, calls with their argument lists and
+   trailing content blocks (not `table`/`grid`), closures, let bindings, destructuring assignments, set and show rules,
+   context/if/while/for/return/include, arrays, dictionaries, destructuring patterns, parameter lists, parenthesized
+   expressions, imports with their items, content blocks, strong and emphasised text with their markup bodies -
+   provided no node is written on several source lines and none is a comment or a paragraph break.  Where breaks are
+   suppressed every request the converters make on such a tree yields an unbreakable document, so it is printed on one
+   line at every width: this is the situation of `text #box[#rect(width: 10pt, height: 20pt)] text`.  Partial: code
+   blocks, raw elements, references, headings, list items, the math constructs and table calls are outside `rs`. *)
 Theorem C08_suppressed_sublanguage_one_line_partial :
   forall swidth cfg t r n d n',
     rs t = true -> ufit r t = true -> c_supp (req_ctx r) = true ->
@@ -181,3 +182,20 @@ Example C08_example_call_one_line :
   | Panic _ => False
   end.
 Proof. vm_compute. split; [reflexivity|split; reflexivity]. Qed.
+
+(* the nested block of a prose line whose body holds only code: `b[#f(a, 1)]` *)
+Definition ex_nested_block : tree :=
+  Inner KFuncCall [Leaf KIdent [98] no_attrs;
+    Inner KArgs [Inner KContentBlock [Leaf KLeftBracket [91] no_attrs;
+      Inner KMarkup [Leaf KHash [35] no_attrs;
+        Inner KFuncCall [Leaf KIdent [102] no_attrs;
+          Inner KArgs [Leaf KLeftParen [40] no_attrs; Leaf KIdent [97] no_attrs; Leaf KComma [44] no_attrs;
+                       Leaf KSpace [32] no_attrs; Leaf KInt [49] no_attrs; Leaf KRightParen [41] no_attrs] no_attrs] no_attrs] no_attrs;
+      Leaf KRightBracket [93] no_attrs] no_attrs] no_attrs] no_attrs.
+Example C08_example_nested_block :
+  rs ex_nested_block = true /\
+  match call (build (fun s => N.of_nat (length s)) CliGen.cfg_default ex_nested_block) (RExprEmb (mk_ctx LMarkup true)) 0 with
+  | Ok (d, _) => unbreakable d = true
+  | Panic _ => False
+  end.
+Proof. vm_compute. split; reflexivity. Qed.
